@@ -51,8 +51,11 @@ def build(docs, source, workdir, tag):
                 f.write(doc)
             paths.append(p)
         return MosCollection.from_files(paths, allow_incomplete=True), None
-    fake = fakes3.FakeS3({'b': {f'p/{n:03d}.mos.xml': doc.encode('utf-8') for n, doc in enumerate(docs)}},
-                         page_size=2)
+    objs = {f'p/{n:03d}.mos.xml': doc.encode('utf-8') for n, doc in enumerate(docs)}
+    # keys that are not MOS files fill whole listing pages before, between and after them
+    objs.update({'p/000-a.txt': b'x', 'p/000-b.txt': b'x', 'p/000-c.md': b'x', 'p/001-notes.txt': b'x',
+                 'p/001-z.txt': b'x', 'p/zz.txt': b'x', 'q/other.mos.xml': b'<mos/>'})
+    fake = fakes3.FakeS3({'b': objs}, page_size=2)
     with fake:
         return MosCollection.from_s3(bucket_name='b', prefix='p/', allow_incomplete=True), fake
 
